@@ -166,11 +166,37 @@ def segments(expr, hook=None, depth=0):
         if mc and mc[1] == 'join' and len(expr.args) == 1:
             sep = segments(mc[0], hook, depth + 1)
             a = expr.args[0]
-            while isinstance(a, ast.Call) and isinstance(
-                    a.func, ast.Name) and a.func.id in (
-                        'list', 'tuple') and len(a.args) == 1 and \
-                    not a.keywords:
-                a = a.args[0]
+            while True:
+                if isinstance(a, ast.Call) and isinstance(
+                        a.func, ast.Name) and a.func.id in (
+                            'list', 'tuple') and len(a.args) == 1 and \
+                        not a.keywords:
+                    a = a.args[0]
+                    continue
+                if isinstance(a, ast.Name) and hook is not None and \
+                        getattr(hook, 'deref', None) is not None:
+                    # a sequence built earlier and kept under a name
+                    d = hook.deref(a)
+                    if d is not None and d is not a:
+                        a = d
+                        continue
+                break
+            if isinstance(a, (ast.List, ast.Tuple)) and not a.elts and \
+                    hook is not None and getattr(hook, 'deref', None):
+                # (named sequences are followed with what was appended to
+                # them: an empty one is empty)
+                return []
+            if isinstance(a, ast.BinOp) and isinstance(a.op, ast.Add) and \
+                    not merge(sep):
+                # pieces of a sequence glued with nothing in between: the
+                # pieces one after the other
+                def glued(x):
+                    if isinstance(x, (ast.List, ast.Tuple)) and not x.elts:
+                        return []
+                    return segments(ast.Call(
+                        func=expr.func, args=[x], keywords=[]), hook,
+                        depth + 1)
+                return glued(a.left) + glued(a.right)
             if isinstance(a, ast.Call) and isinstance(a.func, ast.Name) \
                     and a.func.id == 'map' and len(a.args) == 2 and \
                     not a.keywords:
